@@ -456,8 +456,10 @@ theorem add_size_prefix (s s' : State α) (k : Nat) (h : Inv s) (hs : add s k = 
       rw [← hb i (by omega)] at hx
       rw [← hb (i+1) (by omega)] at hy
       exact hmid' i _ _ hx hy
-    · rw [List.getElem?_eq_none (by omega)]
-      rw [List.getElem?_eq_none]; simp; omega
+    · have h1 : (List.take s.bins s'.size)[i]? = none := by
+        rw [List.getElem?_eq_none]; simp; omega
+      have h2 : s.size[i]? = none := List.getElem?_eq_none (by omega)
+      rw [h1, h2]
   rw [← htake, List.take_append_drop]
 
 /-- **extend, moments**: every moment (in particular M0, M1, M3) of the distribution is unchanged -/
@@ -467,5 +469,705 @@ theorem add_moment (s s' : State α) (k j : Nat) (h : Inv s) (hs : add s k = som
   obtain ⟨hn, hpl, hbl, hsl, -⟩ := inv_spec s h
   rw [(add_psd s s' k h hs).1, hr]
   exact moment_append_zeros j k _ _ _ (by omega)
+
+/-! ### re-mesh (changeSizeClasses) -/
+
+theorem remeshRaw_nonneg (psd bounds newBounds : List α) (hp : ∀ x ∈ psd, 0 ≤ x)
+    (hw : ∀ w ∈ widths bounds, 0 ≤ w) (hw' : ∀ w ∈ widths newBounds, 0 ≤ w) :
+    ∀ x ∈ remeshRaw psd bounds newBounds, 0 ≤ x := by
+  simp only [remeshRaw]
+  apply forall_mem_zipWith _ (fun _ => True) (fun w => 0 ≤ w) (fun x => 0 ≤ x)
+  · intro a w _ hw0
+    refine mul_nonneg (interp_nonneg _ _ _ ?_) hw0
+    exact forall_mem_zipWith _ (fun p => 0 ≤ p) (fun w => 0 ≤ w) (fun x => 0 ≤ x)
+      (fun p w h1 h2 => div_nonneg h1 h2) _ _ hp hw
+  · intros; trivial
+  · exact hw'
+
+theorem remeshRaw_length (psd bounds newBounds : List α) :
+    (remeshRaw psd bounds newBounds).length = newBounds.length - 1 := by
+  simp [remeshRaw, midpoints_length, widths_length]
+
+/-- the freshly reset target grid of a re-mesh -/
+def targetOf (s : State α) (cMin cMax : α) (b? : Option Nat) : State α := reset (retarget s cMin cMax b?) false
+/-- interpolated, not yet rescaled populations on the target grid -/
+def rawOf (s : State α) (cMin cMax : α) (b? : Option Nat) : List α :=
+  remeshRaw s.psd s.bounds (targetOf s cMin cMax b?).bounds
+
+theorem remeshNewV_eq (s : State α) (cMin cMax : α) (b? : Option Nat) :
+    remeshNewV s cMin cMax b? = moment (rawOf s cMin cMax b?) (targetOf s cMin cMax b?).size 3 := rfl
+
+/-- closed form of `changeSizeClasses(.., resetPSD=False)` on a consistent grid: it never raises;
+the interpolated distribution is rescaled by `oldV/newV` when `newV ≠ 0` and replaced by zeros
+otherwise -/
+theorem change_false_eq (s : State α) (cMin cMax : α) (b? : Option Nat) (h : Inv s) :
+    change s cMin cMax b? false =
+      some (if remeshNewV s cMin cMax b? < 0 ∨ 0 < remeshNewV s cMin cMax b? then
+              { targetOf s cMin cMax b? with
+                  psd := (rawOf s cMin cMax b?).map (fun x => x * (thirdMoment s / remeshNewV s cMin cMax b?)) }
+            else { targetOf s cMin cMax b? with psd := zeros (targetOf s cMin cMax b?).bins }) := by
+  obtain ⟨hn, hpl, hbl, hsl, -⟩ := inv_spec s h
+  have hg : ¬ (s.psd.length ≠ s.size.length ∨ s.psd.length + 1 ≠ s.bounds.length ∨
+      (s.psd.length = 0 ∧ (retarget s cMin cMax b?).bins ≠ 0)) := by
+    rw [hpl, hbl, hsl]; omega
+  simp only [change, Bool.false_eq_true, if_false, if_neg hg]
+  split
+  · next hc =>
+    have hc' : remeshNewV s cMin cMax b? < 0 ∨ 0 < remeshNewV s cMin cMax b? := hc
+    rw [if_pos hc']; rfl
+  · next hc =>
+    have hc' : ¬ (remeshNewV s cMin cMax b? < 0 ∨ 0 < remeshNewV s cMin cMax b?) := hc
+    rw [if_neg hc']; rfl
+
+theorem target_fields (s : State α) (cMin cMax : α) (b? : Option Nat) :
+    (targetOf s cMin cMax b?).min = cMin ∧ (targetOf s cMin cMax b?).max = amax2 (10 * cMin) cMax ∧
+    (targetOf s cMin cMax b?).bins = b?.getD s.bins ∧
+    (targetOf s cMin cMax b?).bounds = linspace cMin (amax2 (10 * cMin) cMax) (b?.getD s.bins) ∧
+    (targetOf s cMin cMax b?).size = midpoints (linspace cMin (amax2 (10 * cMin) cMax) (b?.getD s.bins)) := by
+  simp [targetOf, reset, retarget]
+
+/-- **Inv is preserved by a re-mesh** under its precondition: a requested class count ≥ 1 and, unless
+the distribution is reset (then the ORIGINAL grid is restored), `0 ≤ cMin < max(10 cMin, cMax)` -/
+theorem change_inv (s s' : State α) (cMin cMax : α) (b? : Option Nat) (r : Bool) (h : Inv s)
+    (hb : ∀ b, b? = some b → 1 ≤ b) (h0 : r = false → 0 ≤ cMin)
+    (hlt : r = false → cMin < amax2 (10 * cMin) cMax)
+    (hs : change s cMin cMax b? r = some s') : Inv s' := by
+  cases r with
+  | true =>
+    simp only [change, if_true] at hs
+    have := Option.some.inj hs; subst this
+    exact reset_true_inv _ h.orig_bins h.orig_nonneg h.orig_lt
+  | false =>
+    rw [change_false_eq s cMin cMax b? h] at hs
+    have hs' := Option.some.inj hs
+    obtain ⟨⟨hn, hm0, hmlt, hbe, hl, hp⟩, hsz, ho1, ho2, ho3, hbk⟩ := h
+    have hbins : 1 ≤ b?.getD s.bins := by
+      cases b? with
+      | none => simpa using hn
+      | some b => simpa using hb b rfl
+    have hc0 := h0 rfl
+    have hclt := hlt rfl
+    obtain ⟨t1, t2, t3, t4, t5⟩ := target_fields s cMin cMax b?
+    have hinv2 : Inv (targetOf s cMin cMax b?) := by
+      apply reset_false_inv
+      · simpa [retarget] using hbins
+      · simpa [retarget] using hc0
+      · simpa [retarget] using hclt
+      · exact ho1
+      · exact ho2
+      · exact ho3
+    obtain ⟨⟨a1, a2, a3, a4, a5, a6⟩, b1, b2, b3, b4, b5⟩ := hinv2
+    -- non-negativity of the interpolated populations and of both third moments
+    have hraw : ∀ x ∈ rawOf s cMin cMax b?, 0 ≤ x := by
+      apply remeshRaw_nonneg _ _ _ hp
+      · intro w hw; rw [hbe] at hw; exact (widths_linspace_nonneg _ _ _ hn hmlt w hw).le
+      · intro w hw; rw [t4] at hw; exact (widths_linspace_nonneg _ _ _ hbins hclt w hw).le
+    have hold : 0 ≤ thirdMoment s := by
+      apply moment_nonneg _ _ _ hp
+      rw [hsz, hbe]; exact midpoints_linspace_nonneg _ _ _ hn hm0 hmlt
+    have hnew : 0 ≤ remeshNewV s cMin cMax b? := by
+      rw [remeshNewV_eq]
+      apply moment_nonneg _ _ _ hraw
+      rw [t5]; exact midpoints_linspace_nonneg _ _ _ hbins hc0 hclt
+    split at hs'
+    · subst hs'
+      refine ⟨⟨a1, a2, a3, a4, ?_, ?_⟩, b1, b2, b3, b4, b5⟩
+      · simp only [List.length_map, rawOf, remeshRaw_length, t4, linspace_length, t3]; omega
+      · intro x hx
+        simp only [List.mem_map] at hx
+        obtain ⟨y, hy, rfl⟩ := hx
+        exact mul_nonneg (hraw y hy) (div_nonneg hold hnew)
+    · subst hs'
+      exact ⟨⟨a1, a2, a3, a4, zeros_length _, zeros_nonneg _⟩, b1, b2, b3, b4, b5⟩
+
+/-- **re-mesh volume**: after `changeSizeClasses(.., resetPSD=False)` the third moment equals the
+old one **iff** the interpolated distribution has a non-zero third moment (`newV ≠ 0`) or there was
+no volume to begin with. -/
+theorem remesh_M3_iff (s s' : State α) (cMin cMax : α) (b? : Option Nat) (h : Inv s)
+    (hs : change s cMin cMax b? false = some s') :
+    thirdMoment s' = thirdMoment s ↔ (remeshNewV s cMin cMax b? ≠ 0 ∨ thirdMoment s = 0) := by
+  rw [change_false_eq s cMin cMax b? h] at hs
+  have hs' := Option.some.inj hs
+  split at hs'
+  · next hc =>
+    have hne : remeshNewV s cMin cMax b? ≠ 0 := by
+      rcases hc with hc | hc
+      · exact ne_of_lt hc
+      · exact ne_of_gt hc
+    subst hs'
+    have : thirdMoment { targetOf s cMin cMax b? with
+        psd := (rawOf s cMin cMax b?).map (fun x => x * (thirdMoment s / remeshNewV s cMin cMax b?)) }
+        = thirdMoment s := by
+      show moment _ (targetOf s cMin cMax b?).size 3 = _
+      rw [moment_map_mul, ← remeshNewV_eq]
+      field_simp
+    rw [this]
+    exact ⟨fun _ => Or.inl hne, fun _ => rfl⟩
+  · next hc =>
+    have hz : remeshNewV s cMin cMax b? = 0 := by
+      rcases lt_trichotomy (remeshNewV s cMin cMax b?) 0 with h1 | h1 | h1
+      · exact absurd (Or.inl h1) hc
+      · exact h1
+      · exact absurd (Or.inr h1) hc
+    subst hs'
+    have : thirdMoment { targetOf s cMin cMax b? with psd := zeros (targetOf s cMin cMax b?).bins } = 0 := by
+      show moment _ (targetOf s cMin cMax b?).size 3 = 0
+      exact moment_zeros _ _ _
+    rw [this]
+    constructor
+    · intro h0; exact Or.inr h0.symm
+    · rintro (h1 | h1)
+      · exact absurd hz h1
+      · exact h1.symm
+
+/-- **re-mesh volume, the part that is true**: the third moment is preserved whenever the
+interpolated distribution is not empty (`newV ≠ 0`).  The hypothesis cannot be replaced by "the new
+grid covers the populated range": see `remesh_can_vanish`. -/
+theorem remesh_preserves_M3_partial (s s' : State α) (cMin cMax : α) (b? : Option Nat) (h : Inv s)
+    (hs : change s cMin cMax b? false = some s') (hnewV : remeshNewV s cMin cMax b? ≠ 0) :
+    thirdMoment s' = thirdMoment s :=
+  (remesh_M3_iff s s' cMin cMax b? h hs).mpr (Or.inl hnewV)
+
+/-! ### update, direct assignment, load, backup, revert -/
+
+theorem update_inv (s : State α) (N : List α) (h : Inv s) (hN : N.length = s.bins) : Inv (update s N) := by
+  obtain ⟨⟨hn, hm0, hmlt, hbe, hl, hp⟩, hsz, ho1, ho2, ho3, hbk⟩ := h
+  refine ⟨⟨hn, hm0, hmlt, hbe, by simp [update, hN], ?_⟩, hsz, ho1, ho2, ho3, hbk⟩
+  intro x hx
+  simp only [update, List.mem_map] at hx
+  obtain ⟨y, _, rfl⟩ := hx
+  split
+  · exact le_refl _
+  · next hy => linarith [not_lt.mp hy]
+
+theorem setPsd_inv (s : State α) (N : List α) (h : Inv s) (hN : N.length = s.bins) (h0 : ∀ x ∈ N, 0 ≤ x) :
+    Inv { s with psd := N } := by
+  obtain ⟨⟨hn, hm0, hmlt, hbe, hl, hp⟩, hsz, ho1, ho2, ho3, hbk⟩ := h
+  exact ⟨⟨hn, hm0, hmlt, hbe, hN, h0⟩, hsz, ho1, ho2, ho3, hbk⟩
+
+theorem histogram_length (data edges : List α) : (histogram data edges).length = edges.length - 1 := by
+  simp [histogram]
+
+theorem histogram_nonneg (data edges : List α) : ∀ x ∈ histogram data edges, 0 ≤ x := by
+  intro x hx
+  simp only [histogram, List.mem_map] at hx
+  obtain ⟨i, _, rfl⟩ := hx
+  split
+  · exact Nat.cast_nonneg _
+  · exact le_refl _
+
+theorem load_inv (s s' : State α) (data : List α) (h : Inv s) (hs : load s data = some s') : Inv s' := by
+  obtain ⟨hn, hpl, hbl, hsl, -⟩ := inv_spec s h
+  obtain ⟨⟨hn, hm0, hmlt, hbe, hl, hp⟩, hsz, ho1, ho2, ho3, hbk⟩ := h
+  unfold load at hs
+  split at hs
+  · simp at hs
+  · have := Option.some.inj hs; subst this
+    exact ⟨⟨hn, hm0, hmlt, hbe, by simp only [histogram_length, hbl]; omega, histogram_nonneg _ _⟩, hsz, ho1, ho2, ho3, hbk⟩
+
+theorem backup_inv (s : State α) (h : Inv s) : Inv (backup s) := by
+  obtain ⟨hg, hsz, ho1, ho2, ho3, hbk⟩ := h
+  exact ⟨hg, hsz, ho1, ho2, ho3, ⟨_, _, _, hg⟩⟩
+
+/-- closed form of `revert` when the backup is a consistent grid `(mn, mx, n)` -/
+theorem revert_eq (s : State α) (mn mx : α) (n : Nat) (hg : GridOK mn mx n s.prevBounds s.prevPsd) :
+    revert s = some { s with psd := s.prevPsd, bounds := s.prevBounds, size := midpoints s.prevBounds,
+                             bins := n, min := mn, max := mx } := by
+  obtain ⟨hn, _, _, hb, hl, _⟩ := hg
+  have h1 : s.prevBounds.head? = some mn := by rw [hb, linspace_head?]
+  have h2 : s.prevBounds.getLast? = some mx := by rw [hb, linspace_getLast? _ _ _ hn]
+  simp only [revert, h1, h2, hl]
+
+/-- **Inv is preserved by `revert` at any time** (also before any `createBackup`, after `reset`,
+after a re-mesh): the backup is part of the invariant.  Before the repair recorded in
+known_findings.txt the backup boundaries were initialised to zeros and this failed, see
+`revert_zero_backup_breaks`. -/
+theorem revert_inv (s s' : State α) (h : Inv s) (hs : revert s = some s') : Inv s' := by
+  obtain ⟨hg, hsz, ho1, ho2, ho3, ⟨mn, mx, n, hbk⟩⟩ := h
+  rw [revert_eq s mn mx n hbk] at hs
+  have := Option.some.inj hs; subst this
+  exact ⟨hbk, rfl, ho1, ho2, ho3, ⟨mn, mx, n, hbk⟩⟩
+
+/-- **backup/revert**: `revert` directly after `createBackup` on a consistent grid gives back the
+distribution, boundaries, centres, class count and range. -/
+theorem revert_backup (s : State α) (h : Inv s) :
+    ∃ s', revert (backup s) = some s' ∧ s'.psd = s.psd ∧ s'.bounds = s.bounds ∧ s'.size = s.size ∧
+      s'.bins = s.bins ∧ s'.min = s.min ∧ s'.max = s.max := by
+  have hg : GridOK s.min s.max s.bins (backup s).prevBounds (backup s).prevPsd := h.grid
+  refine ⟨_, revert_eq (backup s) _ _ _ hg, rfl, rfl, ?_, rfl, rfl, rfl⟩
+  simp only [backup]; exact h.size_eq.symm
+
+/-- the pre-repair behaviour, kept as a record: with an all-zero backup of the right lengths (what
+`reset` used to install) `revert` yields a grid whose boundaries are all zero — not a consistent
+grid, whatever the state was before. -/
+theorem revert_zero_backup_breaks (s s' : State α) (hn : 1 ≤ s.bins)
+    (hb : s.prevBounds = zeros (s.bins + 1)) (hp : s.prevPsd = zeros s.bins)
+    (hs : revert s = some s') : ¬ Inv s' := by
+  intro hinv
+  have hhead : s.prevBounds.head? = some 0 := by rw [hb]; simp [zeros, List.replicate_succ]
+  have hlast : s.prevBounds.getLast? = some 0 := by
+    rw [hb]; simp [zeros, List.getLast?_replicate]
+  simp only [revert, hhead, hlast] at hs
+  have := Option.some.inj hs; subst this
+  exact absurd hinv.grid.lt (lt_irrefl _)
+
+/-! ### automatic adjustment -/
+
+theorem foldl_max_mem : ∀ (xs : List α) (x : α),
+    xs.foldl (fun a b => if a < b then b else a) x ∈ x :: xs := by
+  intro xs
+  induction xs with
+  | nil => intro x; simp
+  | cons y ys ih =>
+    intro x
+    simp only [List.foldl_cons]
+    have := ih (if x < y then y else x)
+    split at this
+    · simp only [List.mem_cons] at this ⊢
+      next h => simp only [h, if_true]; tauto
+    · simp only [List.mem_cons] at this ⊢
+      next h => simp only [h, if_false]; tauto
+
+theorem maxList_mem (l : List α) (h : l ≠ []) : maxList l ∈ l := by
+  cases l with
+  | nil => exact absurd rfl h
+  | cons x xs => exact foldl_max_mem xs x
+
+theorem populated_subset (psd xs : List α) : ∀ x ∈ populated psd xs, x ∈ xs := by
+  intro x hx
+  simp only [populated, List.mem_map, List.mem_filter] at hx
+  obtain ⟨⟨p, y⟩, ⟨hz, _⟩, rfl⟩ := hx
+  exact (List.of_mem_zip hz).2
+
+theorem populated_ne_nil : ∀ (psd xs : List α), psd.length ≤ xs.length →
+    psd.any (fun p => decide ((1 : α) < p)) = true → populated psd xs ≠ [] := by
+  intro psd
+  induction psd with
+  | nil => intro xs _ h; simp at h
+  | cons p ps ih =>
+    intro xs hl h
+    cases xs with
+    | nil => simp at hl
+    | cons x xs =>
+      simp only [List.any_cons, Bool.or_eq_true, decide_eq_true_eq] at h
+      by_cases hp : (1 : α) < p
+      · simp [populated, hp]
+      · have h' : ps.any (fun p => decide ((1 : α) < p)) = true := by
+          rcases h with h | h
+          · exact absurd h hp
+          · exact h
+        have := ih xs (by simpa using hl) h'
+        simpa [populated, hp] using this
+
+theorem linspace_tail_gt (mn mx : α) (n : Nat) (hn : 1 ≤ n) (h : mn < mx) :
+    ∀ b ∈ (linspace mn mx n).tail, mn < b := by
+  intro b hb
+  obtain ⟨i, hi, rfl⟩ := List.mem_iff_getElem.mp hb
+  simp only [List.length_tail, linspace_length] at hi
+  have := linspace_getElem? mn mx n (i+1) hn (by omega)
+  rw [List.getElem_tail]
+  rw [List.getElem?_eq_getElem (by rw [linspace_length]; omega)] at this
+  rw [Option.some.inj this]
+  have h2 := lin_lt mn mx n 0 (i+1) hn h (by omega)
+  rwa [lin_zero] at h2
+
+theorem adjustAdd_inv (s s1 : State α) (chg : Bool) (ni : Option Nat) (h : Inv s)
+    (hs : adjustAdd s = some (s1, chg, ni)) : Inv s1 := by
+  unfold adjustAdd at hs
+  split at hs
+  · simp at hs
+  · split at hs
+    · rw [Option.map_eq_some_iff] at hs
+      obtain ⟨s', hadd, heq⟩ := hs
+      have : s' = s1 := by simpa using congrArg Prod.fst heq
+      subst this
+      exact add_inv s s' _ h hadd
+    · have : s = s1 := by simpa using congrArg Prod.fst (Option.some.inj hs)
+      subst this; exact h
+
+/-- what a re-mesh request of the automatic adjustment looks like on a consistent grid: it starts at
+the current minimum, ends above it, and asks for `minBins` classes (when there are more than
+`maxBins`) or for `maxBins` classes (dissolution branch) -/
+theorem meshTarget_spec (s : State α) (cd : Bool) (a b : α) (n : Nat) (h : Inv s)
+    (ht : meshTarget s cd = some (some (a, b, n))) :
+    a = s.min ∧ s.min < b ∧ (n = s.minBins ∨ n = s.maxBins) := by
+  obtain ⟨hn, hpl, hbl, hsl, hhead, hlast, -⟩ := inv_spec s h
+  obtain ⟨⟨-, hm0, hmlt, hbe, -, -⟩, -⟩ := h
+  unfold meshTarget at ht
+  split at ht
+  · rw [hhead, hlast] at ht
+    simp only at ht
+    split at ht
+    · simp only [Option.some.injEq, Prod.mk.injEq] at ht
+      obtain ⟨rfl, rfl, rfl⟩ := ht
+      exact ⟨rfl, hmlt, Or.inl rfl⟩
+    · split at ht
+      · split at ht
+        · next hany =>
+          split at ht
+          · simp at ht
+          · split at ht
+            · simp at ht
+            · split at ht
+              · simp only [Option.some.injEq, Prod.mk.injEq] at ht
+                obtain ⟨rfl, rfl, rfl⟩ := ht
+                refine ⟨rfl, ?_, Or.inr rfl⟩
+                have hne : populated s.psd s.bounds.tail ≠ [] :=
+                  populated_ne_nil _ _ (by simp only [List.length_tail]; omega) hany
+                have hmem := populated_subset _ _ _ (maxList_mem _ hne)
+                rw [hbe] at hmem
+                have := linspace_tail_gt _ _ _ hn hmlt _ hmem
+                rwa [← hbe] at this
+              · simp at ht
+        · simp at ht
+      · simp at ht
+  · simp at ht
+
+/-- when the automatic adjustment decides not to re-mesh with adaptive binning on, the class count
+is already within the cap -/
+theorem meshTarget_none_cap (s : State α) (cd : Bool) (ha : s.adaptive = true)
+    (ht : meshTarget s cd = some none) : s.bins ≤ s.maxBins := by
+  unfold meshTarget at ht
+  rw [if_pos ha] at ht
+  split at ht
+  · split at ht
+    · simp at ht
+    · next hle => omega
+  · simp at ht
+
+theorem meshTarget_bins (s : State α) (cd : Bool) (a b : α) (n : Nat)
+    (ht : meshTarget s cd = some (some (a, b, n))) : n = s.minBins ∨ n = s.maxBins := by
+  unfold meshTarget at ht
+  split at ht
+  · split at ht
+    · split at ht
+      · simp only [Option.some.injEq, Prod.mk.injEq] at ht; exact Or.inl ht.2.2.symm
+      · split at ht
+        · split at ht
+          · split at ht
+            · simp at ht
+            · split at ht
+              · simp at ht
+              · split at ht
+                · simp only [Option.some.injEq, Prod.mk.injEq] at ht; exact Or.inr ht.2.2.symm
+                · simp at ht
+          · simp at ht
+        · simp at ht
+    · simp at ht
+  · simp at ht
+
+/-- **Inv is preserved by the automatic adjustment** when `minBins, maxBins ≥ 1` -/
+theorem adjust_inv (s s' : State α) (cd chg : Bool) (ni : Option Nat) (h : Inv s)
+    (hmin : 1 ≤ s.minBins) (hmax : 1 ≤ s.maxBins)
+    (hs : adjust s cd = some (s', chg, ni)) : Inv s' := by
+  unfold adjust at hs
+  split at hs
+  · simp at hs
+  · next s1 c1 n1 hadd =>
+    have h1 := adjustAdd_inv s s1 c1 n1 h hadd
+    have hcfg : s1.minBins = s.minBins ∧ s1.maxBins = s.maxBins := by
+      unfold adjustAdd at hadd
+      split at hadd
+      · simp at hadd
+      · split at hadd
+        · rw [Option.map_eq_some_iff] at hadd
+          obtain ⟨t, hadd', heq⟩ := hadd
+          have : t = s1 := by simpa using congrArg Prod.fst heq
+          subst this
+          rw [add_eq s _ h] at hadd'
+          have := Option.some.inj hadd'; subst this; exact ⟨rfl, rfl⟩
+        · have : s = s1 := by simpa using congrArg Prod.fst (Option.some.inj hadd)
+          subst this; exact ⟨rfl, rfl⟩
+    split at hs
+    · simp at hs
+    · have : s1 = s' := by simpa using congrArg Prod.fst (Option.some.inj hs)
+      subst this; exact h1
+    · next a b n ht =>
+      rw [Option.map_eq_some_iff] at hs
+      obtain ⟨s2, hch, heq⟩ := hs
+      have : s2 = s' := by simpa using congrArg Prod.fst heq
+      subst this
+      obtain ⟨ha, hb, hn⟩ := meshTarget_spec s1 cd a b n h1 ht
+      apply change_inv s1 s2 a b (some n) false h1 _ _ _ hch
+      · intro b' hb'
+        have : n = b' := by simpa using hb'
+        subst this
+        rcases hn with rfl | rfl <;> omega
+      · intro _; rw [ha]; exact h1.grid.min_nonneg
+      · intro _; rw [ha]; exact lt_amax2 _ _ _ (Or.inr hb)
+
+/-- **adaptive cap**: with adaptive binning on and `minBins ≤ maxBins` the automatic adjustment never
+leaves more than `maxBins` classes (no other hypothesis: any state, any distribution). -/
+theorem adjust_cap (s s' : State α) (cd chg : Bool) (ni : Option Nat)
+    (hmm : s.minBins ≤ s.maxBins) (ha : s.adaptive = true) (hs : adjust s cd = some (s', chg, ni)) :
+    s'.bins ≤ s.maxBins := by
+  unfold adjust at hs
+  split at hs
+  · simp at hs
+  · next s1 c1 n1 hadd =>
+    have hcfg : s1.minBins = s.minBins ∧ s1.maxBins = s.maxBins ∧ s1.adaptive = s.adaptive := by
+      unfold adjustAdd at hadd
+      split at hadd
+      · simp at hadd
+      · split at hadd
+        · rw [Option.map_eq_some_iff] at hadd
+          obtain ⟨t, hadd', heq⟩ := hadd
+          have : t = s1 := by simpa using congrArg Prod.fst heq
+          subst this
+          unfold add at hadd'
+          split at hadd'
+          · have := Option.some.inj hadd'; subst this; exact ⟨rfl, rfl, rfl⟩
+          · simp at hadd'
+        · have : s = s1 := by simpa using congrArg Prod.fst (Option.some.inj hadd)
+          subst this; exact ⟨rfl, rfl, rfl⟩
+    split at hs
+    · simp at hs
+    · next ht =>
+      have : s1 = s' := by simpa using congrArg Prod.fst (Option.some.inj hs)
+      subst this
+      rw [← hcfg.2.1]; exact meshTarget_none_cap s1 cd (hcfg.2.2 ▸ ha) ht
+    · next a b n ht =>
+      rw [Option.map_eq_some_iff] at hs
+      obtain ⟨s2, hch, heq⟩ := hs
+      have : s2 = s' := by simpa using congrArg Prod.fst heq
+      subst this
+      have hn := meshTarget_bins s1 cd a b n ht
+      have hb : s2.bins = n := by
+        simp only [change, Bool.false_eq_true, if_false] at hch
+        split at hch
+        · simp at hch
+        · split at hch <;> (have := Option.some.inj hch; subst this; simp [reset, retarget])
+      rw [hb]
+      rcases hn with rfl | rfl <;> omega
+
+/-! ### operation sequences -/
+
+/-- stated precondition of each operation (what the caller has to guarantee) -/
+def Pre (s : State α) : Op α → Prop
+  | .reset _ => True
+  | .add _ => True
+  | .change cMin cMax b? r =>
+      (∀ b, b? = some b → 1 ≤ b) ∧ (r = false → 0 ≤ cMin) ∧ (r = false → cMin < amax2 (10 * cMin) cMax)
+  | .adjust _ => 1 ≤ s.minBins ∧ 1 ≤ s.maxBins
+  | .update N => N.length = s.bins
+  | .backup => True
+  | .revert => True
+  | .setPsd N => N.length = s.bins ∧ ∀ x ∈ N, 0 ≤ x
+  | .load _ => True
+  | .setAdaptive _ => True
+
+/-- **Inv is preserved by every operation under its stated precondition** -/
+theorem inv_step (s s' : State α) (op : Op α) (h : Inv s) (hp : Pre s op) (hs : step s op = some s') :
+    Inv s' := by
+  cases op with
+  | reset b =>
+    have := Option.some.inj hs; subst this
+    cases b with
+    | true => exact reset_true_inv s h.orig_bins h.orig_nonneg h.orig_lt
+    | false => exact reset_false_inv s h.grid.bins_pos h.grid.min_nonneg h.grid.lt h.orig_bins h.orig_nonneg h.orig_lt
+  | add k => exact add_inv s s' k h hs
+  | change cMin cMax b? r => exact change_inv s s' cMin cMax b? r h hp.1 hp.2.1 hp.2.2 hs
+  | adjust c =>
+    simp only [step, Option.map_eq_some_iff] at hs
+    obtain ⟨⟨s1, chg, ni⟩, hadj, rfl⟩ := hs
+    exact adjust_inv s s1 c chg ni h hp.1 hp.2 hadj
+  | update N => have := Option.some.inj hs; subst this; exact update_inv s N h hp
+  | backup => have := Option.some.inj hs; subst this; exact backup_inv s h
+  | revert => exact revert_inv s s' h hs
+  | setPsd N => have := Option.some.inj hs; subst this; exact setPsd_inv s N h hp.1 hp.2
+  | load d => exact load_inv s s' d h hs
+  | setAdaptive b =>
+    have := Option.some.inj hs; subst this
+    obtain ⟨hg, hsz, ho1, ho2, ho3, hbk⟩ := h
+    exact ⟨hg, hsz, ho1, ho2, ho3, hbk⟩
+
+/-- every operation of the sequence meets its precondition in the state it is applied to -/
+def Valid : State α → List (Op α) → Prop
+  | _, [] => True
+  | s, op :: ops => Pre s op ∧ ∀ s', step s op = some s' → Valid s' ops
+
+/-- **Inv after operation sequences of any length** (induction over the operation list) -/
+theorem inv_run : ∀ (ops : List (Op α)) (s s' : State α), Inv s → Valid s ops → run s ops = some s' → Inv s' := by
+  intro ops
+  induction ops with
+  | nil => intro s s' h _ hr; simp only [run, Option.some.injEq] at hr; subst hr; exact h
+  | cons op ops ih =>
+    intro s s' h hv hr
+    simp only [run] at hr
+    cases hst : step s op with
+    | none => rw [hst] at hr; simp at hr
+    | some s1 =>
+      rw [hst] at hr
+      exact ih s1 s' (inv_step s s1 op h hv.1 hst) (hv.2 s1 hst) hr
+
+theorem valid_prefix : ∀ (p q : List (Op α)) (s : State α), Valid s (p ++ q) → Valid s p := by
+  intro p
+  induction p with
+  | nil => intro q s _; trivial
+  | cons op p ih =>
+    intro q s hv
+    exact ⟨hv.1, fun s' hs => ih q s' (hv.2 s' hs)⟩
+
+/-- Inv holds after EVERY operation of a valid sequence, not only at its end -/
+theorem inv_run_every_prefix (p q : List (Op α)) (s s1 : State α) (h : Inv s) (hv : Valid s (p ++ q))
+    (hr : run s p = some s1) : Inv s1 :=
+  inv_run p s s1 h (valid_prefix p q s hv) hr
+
+/-- from the constructor: any valid operation sequence on a freshly constructed grid -/
+theorem inv_run_init (cMin cMax : α) (bins minBins maxBins : Nat) (ops : List (Op α)) (s' : State α)
+    (hb : 1 ≤ bins) (h0 : 0 ≤ cMin) (h : cMin < amax2 (10 * cMin) cMax)
+    (hv : Valid (init cMin cMax bins minBins maxBins) ops)
+    (hr : run (init cMin cMax bins minBins maxBins) ops = some s') : Inv s' :=
+  inv_run ops _ s' (inv_init cMin cMax bins minBins maxBins hb h0 h) hv hr
+
+/-! ### backup / revert across operations -/
+
+/-- operations that do not touch the backup (everything except reset, re-mesh, createBackup and the
+automatic adjustment, which may re-mesh) -/
+def KeepsBackup : Op α → Prop
+  | .add _ | .update _ | .setPsd _ | .load _ | .setAdaptive _ | .revert => True
+  | _ => False
+
+theorem step_keeps_backup (s s' : State α) (op : Op α) (hk : KeepsBackup op) (hs : step s op = some s') :
+    s'.prevPsd = s.prevPsd ∧ s'.prevBounds = s.prevBounds := by
+  cases op with
+  | add k =>
+    simp only [step, add] at hs
+    split at hs
+    · have := Option.some.inj hs; subst this; exact ⟨rfl, rfl⟩
+    · simp at hs
+  | update N => have := Option.some.inj hs; subst this; exact ⟨rfl, rfl⟩
+  | setPsd N => have := Option.some.inj hs; subst this; exact ⟨rfl, rfl⟩
+  | load d =>
+    simp only [step, load] at hs
+    split at hs
+    · simp at hs
+    · have := Option.some.inj hs; subst this; exact ⟨rfl, rfl⟩
+  | setAdaptive b => have := Option.some.inj hs; subst this; exact ⟨rfl, rfl⟩
+  | revert =>
+    simp only [step, revert] at hs
+    split at hs
+    · have := Option.some.inj hs; subst this; exact ⟨rfl, rfl⟩
+    · simp at hs
+  | reset b => exact absurd hk (by simp [KeepsBackup])
+  | change a b c d => exact absurd hk (by simp [KeepsBackup])
+  | adjust c => exact absurd hk (by simp [KeepsBackup])
+  | backup => exact absurd hk (by simp [KeepsBackup])
+
+theorem run_keeps_backup : ∀ (ops : List (Op α)) (s s' : State α), (∀ op ∈ ops, KeepsBackup op) →
+    run s ops = some s' → s'.prevPsd = s.prevPsd ∧ s'.prevBounds = s.prevBounds := by
+  intro ops
+  induction ops with
+  | nil => intro s s' _ hr; simp only [run, Option.some.injEq] at hr; subst hr; exact ⟨rfl, rfl⟩
+  | cons op ops ih =>
+    intro s s' hk hr
+    simp only [run] at hr
+    cases hst : step s op with
+    | none => rw [hst] at hr; simp at hr
+    | some s1 =>
+      rw [hst] at hr
+      obtain ⟨h1, h2⟩ := step_keeps_backup s s1 op (hk op (by simp)) hst
+      obtain ⟨h3, h4⟩ := ih s1 s' (fun o ho => hk o (by simp [ho])) hr
+      exact ⟨h3.trans h1, h4.trans h2⟩
+
+/-- **backup/revert**: `createBackup`, then any number of extensions / updates / assignments / loads
+(valid or not), then `revert`: distribution, boundaries, centres, class count and range of the
+state at backup time are restored exactly. -/
+theorem revert_restores_backup (s s1 : State α) (ops : List (Op α)) (h : Inv s)
+    (hk : ∀ op ∈ ops, KeepsBackup op) (hr : run (backup s) ops = some s1) :
+    ∃ s2, revert s1 = some s2 ∧ s2.psd = s.psd ∧ s2.bounds = s.bounds ∧ s2.size = s.size ∧
+      s2.bins = s.bins ∧ s2.min = s.min ∧ s2.max = s.max := by
+  obtain ⟨h1, h2⟩ := run_keeps_backup ops (backup s) s1 hk hr
+  have hg : GridOK s.min s.max s.bins s1.prevBounds s1.prevPsd := by
+    rw [h1, h2]; exact h.grid
+  refine ⟨_, revert_eq s1 _ _ _ hg, ?_, ?_, ?_, rfl, rfl, rfl⟩
+  · simp only [h1]; rfl
+  · simp only [h2]; rfl
+  · simp only [h2]; exact h.size_eq.symm
+
+/-! ### moment functions depend only on their argument and the grid -/
+
+/-- **moment purity**: every `...FromN` function is determined by `N`, the class centres and its
+other explicit arguments; nothing else of the state (in particular not the stored distribution)
+enters.  (`CumulativeWeightedMomentFromN` read `self.PSD` before the repair.) -/
+theorem momentFromN_pure (s t : State α) (N : List α) (k : Nat) (h : s.size = t.size) :
+    momentFromN s N k = momentFromN t N k := by unfold momentFromN; rw [h]
+theorem cumulativeMomentFromN_pure (s t : State α) (N : List α) (k : Nat) (h : s.size = t.size) :
+    cumulativeMomentFromN s N k = cumulativeMomentFromN t N k := by unfold cumulativeMomentFromN; rw [h]
+theorem weightedMomentFromN_pure (s t : State α) (N w : List α) (k : Nat) (h : s.size = t.size) :
+    weightedMomentFromN s N k w = weightedMomentFromN t N k w := by
+  unfold weightedMomentFromN weightedTerms; rw [h]
+theorem cumulativeWeightedMomentFromN_pure (s t : State α) (N w : List α) (k : Nat) (h : s.size = t.size) :
+    cumulativeWeightedMomentFromN s N k w = cumulativeWeightedMomentFromN t N k w := by
+  unfold cumulativeWeightedMomentFromN weightedTerms; rw [h]
+/-- in particular: changing only the stored distribution changes none of them -/
+theorem moments_ignore_stored_psd (s : State α) (P N w : List α) (k : Nat) :
+    momentFromN { s with psd := P } N k = momentFromN s N k ∧
+    cumulativeMomentFromN { s with psd := P } N k = cumulativeMomentFromN s N k ∧
+    weightedMomentFromN { s with psd := P } N k w = weightedMomentFromN s N k w ∧
+    cumulativeWeightedMomentFromN { s with psd := P } N k w = cumulativeWeightedMomentFromN s N k w :=
+  ⟨rfl, rfl, rfl, rfl⟩
+
+/-! ### the unrestricted re-mesh claim is FALSE of the code: concrete witnesses over ℚ
+
+"Re-meshing preserves the third moment whenever the new grid covers the populated range" fails:
+if the populated classes are isolated and the new class spacing exceeds twice the old one, no new
+centre falls inside the support of the linearly interpolated number density; then `newV = 0` and the
+code replaces the distribution by zeros.  (`decide +kernel`: the kernel evaluates the executable
+model on rationals; no axioms beyond the standard three.) -/
+
+/-- 9 classes on [1,10] (boundaries 1,2,…,10), only class 4 = [5,6] populated; minBins 4, maxBins 8 -/
+def witness9 : State ℚ := { init (1 : ℚ) 10 9 4 8 with psd := [0, 0, 0, 0, 5, 0, 0, 0, 0] }
+
+theorem witness9_inv : Inv witness9 :=
+  setPsd_inv _ _ (inv_init 1 10 9 4 8 (by norm_num) (by norm_num) (by decide +kernel))
+    (by decide +kernel) (by decide +kernel)
+
+/-- **re-mesh volume, full claim refuted**: re-meshing `witness9` to 4 classes on the same range
+[1,10] — a grid that covers the populated class [5,6] — deletes everything: the third moment drops
+from 6655/8 to 0. -/
+theorem remesh_can_vanish :
+    ∃ s', change witness9 1 10 (some 4) false = some s' ∧
+      s'.min = 1 ∧ s'.max = 10 ∧ s'.bounds = [1, 13/4, 11/2, 31/4, 10] ∧      -- covers [5,6]
+      s'.size = [17/8, 35/8, 53/8, 71/8] ∧                                     -- no centre in (4.5, 6.5)
+      remeshNewV witness9 1 10 (some 4) = 0 ∧
+      thirdMoment witness9 = 6655/8 ∧ thirdMoment s' = 0 ∧ s'.psd = [0, 0, 0, 0] := by
+  decide +kernel
+
+/-- the same through the automatic adjustment (9 classes > maxBins = 8 ⇒ re-mesh to minBins = 4):
+returned `(change, newIndices) = (True, None)`, 4 classes on [1,10], all empty -/
+theorem adjust_can_vanish :
+    (adjust witness9 false).map (fun r => (r.2.1, r.2.2, r.1.bins, r.1.psd)) = some (true, none, 4, [0, 0, 0, 0]) ∧
+    (adjust witness9 false).map (fun r => (r.1.min, r.1.max, thirdMoment r.1)) = some (1, 10, 0) ∧
+    thirdMoment witness9 ≠ 0 := by
+  decide +kernel
+
+/-- the witness of DESIGN.md at full size: the default bin constraints (100/200), 224 classes on
+[1e-10, 1e-8], only class 4 populated with 1e20 particles -/
+def witness224 : State ℚ :=
+  { init (1 / 10^10 : ℚ) (1 / 10^8) 224 100 200 with
+      psd := (List.range 224).map (fun i => if i = 4 then (10 : ℚ)^20 else 0) }
+
+/-- the automatic adjustment re-meshes it to 100 classes on the same range and every class is empty -/
+theorem adjust_can_vanish_224 :
+    (adjust witness224 false).map (fun r => (r.2.1, r.2.2, r.1.bins,
+        decide (r.1.min = 1 / 10^10 ∧ r.1.max = 1 / 10^8), r.1.psd.all (fun x => decide (x = 0))))
+      = some (true, none, 100, true, true) := by
+  decide +kernel
+theorem witness224_has_volume : thirdMoment witness224 ≠ 0 := by decide +kernel
+
+/-! ### non-vacuity: the hypotheses of the theorems above are met by concrete states -/
+
+example : Inv (init (1 : ℚ) 10 9 4 8) := inv_init 1 10 9 4 8 (by norm_num) (by norm_num) (by decide +kernel)
+example : (change witness9 1 10 (some 6) false).map (fun s => thirdMoment s) = some (thirdMoment witness9) ∧
+    remeshNewV witness9 1 10 (some 6) ≠ 0 := by decide +kernel
+example : Valid (init (1 : ℚ) 10 3 2 8) [.update [7, 1/2, 3], .backup, .add 2, .revert] :=
+  ⟨(by decide +kernel : [7, 1/2, (3 : ℚ)].length = (init (1 : ℚ) 10 3 2 8).bins),
+   fun _ _ => ⟨trivial, fun _ _ => ⟨trivial, fun _ _ => ⟨trivial, fun _ _ => trivial⟩⟩⟩⟩
+example : (run (init (1 : ℚ) 10 3 2 8) [.update [7, 1/2, 3], .backup, .add 2, .revert]).map (fun s => (s.psd, s.bins))
+    = some ([7, 0, 3], 3) := by decide +kernel
+example : (adjust { witness9 with psd := [0, 0, 0, 0, 5, 0, 0, 0, 2] } false).map (fun r => decide (r.1.bins ≤ 8))
+    = some true := by
+  decide +kernel
 
 end KawinV.Props.C08
